@@ -50,6 +50,10 @@ structure Font where
   ascender : Int                       -- ttf-parser `ascender()` (i16)
   descender : Int
   vorg : Option (Nat → Int)           -- ttf-parser `glyph_y_origin` (VORG); `none` = no VORG table
+  /-- outline font (`glyf`): glyph ↦ (yMin, yMax) of its header, `none` inside = empty glyph; outer `none` = no outlines -/
+  glyf : Option (Nat → Option (Int × Int)) := none
+  /-- top side bearing of `vmtx` (ttf-parser `glyph_ver_side_bearing`, 0 when absent) -/
+  vsb : Nat → Int := fun _ => 0
 
 inductive Dir | ltr | rtl | ttb | btt
   deriving DecidableEq, Repr, Inhabited
@@ -182,11 +186,28 @@ def vAdvance (f : Font) (g : Nat) : Int :=
 /-- src: face.rs::glyph_h_origin -/
 def hOrigin (f : Font) (g : Nat) : Int := (hAdvance f g).tdiv 2
 
-/-- src: face.rs::glyph_v_origin (VORG, else — `glyph_extents` fails without outlines — the ascender) -/
+/-- src: face.rs::glyph_extents for a `glyf` font without bitmaps / COLR: (y_bearing, height) = (yMax, yMin - yMax),
+    zero extents for an empty glyph; `none` without outlines -/
+def glyphExtentsY (f : Font) (g : Nat) : Option (Int × Int) :=
+  match f.glyf with
+  | none => none
+  | some bb =>
+    match bb g with
+    | some (ymin, ymax) => some (ymax, ymin - ymax)
+    | none => some (0, 0)
+
+/-- src: face.rs::glyph_v_origin: VORG; else from the glyph extents — with `vmtx` the top of the box plus the top side
+    bearing, without it the box centred in the line `ascender - descender` (`diff >> 1`: rounds DOWN, `/` on `Int`
+    is floor division for the divisor 2); else the ascender -/
 def vOrigin (f : Font) (g : Nat) : Int :=
   match f.vorg with
   | some y => y g
-  | none => f.ascender
+  | none =>
+    match glyphExtentsY f g with
+    | some (yBearing, height) =>
+      if f.vmtx.isSome then yBearing + f.vsb g
+      else yBearing + ((f.ascender - f.descender) + height) / 2
+    | none => f.ascender
 
 /-! ## unicode props -/
 
